@@ -30,7 +30,7 @@ structure Schema where
   ty : Ty
   dflt : V
   dynamic : Bool
-deriving Repr
+deriving Repr, DecidableEq
 
 inductive Err | unknown | notDynamic | badValue | notSupported
 deriving DecidableEq, Repr
